@@ -630,3 +630,55 @@ def find_containing(nfa: NFA, word: str, alphabet: Sequence[str], lower: bool = 
         if len(parent) > max_states:
             raise AnalysisError("product automaton exceeds the state budget")
     return None, len(parent)
+
+
+def find_not_included(a: NFA, b: NFA, alphabet: Sequence[str], max_states: int = 300_000):
+    """A string accepted (as a whole) by `a` but not by `b`, or None: L(a) <= L(b) over the given alphabet (one
+    representative per behaviour class is enough; callers pass the literal characters of both patterns plus
+    representatives of everything else).  Subset construction of b on the fly; anchors are not supported."""
+    def closure(n: NFA, states) -> frozenset:
+        seen = set(states)
+        todo = list(states)
+        while todo:
+            q = todo.pop()
+            for kind, pred, t in n.edges[q]:
+                if kind == EPS and t not in seen:
+                    seen.add(t)
+                    todo.append(t)
+                elif kind in (BOL, EOL):
+                    raise AnalysisError("anchors are not supported in inclusion checks")
+        return frozenset(seen)
+
+    def step(n: NFA, states, ch: str) -> frozenset:
+        out = set()
+        for q in states:
+            for kind, pred, t in n.edges[q]:
+                if kind == CH and pred.matches(ch):
+                    out.add(t)
+        return closure(n, out)
+
+    start = (closure(a, [a.start]), closure(b, [b.start]))
+    parent = {start: (None, "")}
+    dq = deque([start])
+    while dq:
+        st = dq.popleft()
+        sa, sb = st
+        if a.accept in sa and b.accept not in sb:
+            out = []
+            cur = st
+            while cur is not None:
+                par, ch = parent[cur]
+                out.append(ch)
+                cur = par
+            return "".join(reversed(out))
+        for ch in alphabet:
+            na = step(a, sa, ch)
+            if not na:
+                continue
+            nxt = (na, step(b, sb, ch))
+            if nxt not in parent:
+                parent[nxt] = (st, ch)
+                dq.append(nxt)
+        if len(parent) > max_states:
+            raise AnalysisError("inclusion product exceeds the state budget")
+    return None
